@@ -67,6 +67,7 @@ Write(m) == /\ m \in writes /\ m \notin written /\ m \notin polled        \* exa
             /\ written' = written \cup {m}
             /\ UNCHANGED <<cfgvars, phase, polled, cbdone, state, stopped, joined, shut, inflight, stopAt>>
 FirstPoll(m) == /\ m \in polls /\ phase[host[m]] = "started" /\ Rank(phase[m]) >= 3 /\ (m \in writes => m \in written)
+                /\ host[m] \notin stopped
                 /\ polled' = polled \cup {m}
                 /\ UNCHANGED <<cfgvars, phase, written, cbdone, state, stopped, joined, shut, inflight, stopAt>>
 Owners == {host[m] : m \in polls \cup writes}                 \* the modules that run a poll thread
@@ -76,7 +77,10 @@ StartedCb(m) == /\ m \in Owners /\ m \notin cbdone /\ phase[m] = "started"
                 /\ UNCHANGED <<cfgvars, phase, written, polled, state, stopped, joined, shut, inflight, stopAt>>
 
 (* a long poll has ended: never after a module was shut down (every poll thread is stopped - and waited for - first) *)
-PollBegin(m) == /\ inflight' = inflight \cup {m}
+(* a poll thread that was told to stop finishes the poll it is in, but starts no other one *)
+Poll(m) == m \in polled /\ host[m] \notin stopped /\ UNCHANGED vars
+PollBegin(m) == /\ host[m] \notin stopped
+                /\ inflight' = inflight \cup {m}
                 /\ UNCHANGED <<cfgvars, phase, written, polled, cbdone, state, stopped, joined, shut, stopAt>>
 PollEnd(m) == /\ inflight' = inflight \ {m}
               /\ UNCHANGED <<cfgvars, phase, written, polled, cbdone, state, stopped, joined, shut, stopAt>>
